@@ -57,7 +57,9 @@ func opInv(v bool) mop { return mop{L(Sym("inv"), v), func(i *mono.MonoImg) { i.
 func opFont(n int, p bool) mop {
 	return mop{L(Sym("font"), n, p), func(i *mono.MonoImg) { i.SetFont(n, p) }}
 }
-func opCur(x, y int) mop { return mop{L(Sym("cur"), x, y), func(i *mono.MonoImg) { i.SetCursor(x, y) }} }
+func opCur(x, y int) mop {
+	return mop{L(Sym("cur"), x, y), func(i *mono.MonoImg) { i.SetCursor(x, y) }}
+}
 func opTsz(h, v int) mop {
 	return mop{L(Sym("tsz"), h, v), func(i *mono.MonoImg) { i.SetTextSize(h, v) }}
 }
@@ -491,7 +493,7 @@ func randOp(rng *Rng, W, H int) mop {
 		w, h := rng.Range(0, 30), rng.Range(0, 20)
 		n := rng.Intn((w+7)/8*h + 2)
 		if rng.Intn(3) == 0 { // far fewer bytes than declared (several whole rows missing), or far more
-			n = rng.Pick([]int{0, 1, (w + 7) / 8, (w+7)/8*h/2, (w+7)/8*h + 40})
+			n = rng.Pick([]int{0, 1, (w + 7) / 8, (w + 7) / 8 * h / 2, (w+7)/8*h + 40})
 		}
 		return opBM(x, y, rng.Bytes(n), w, h, c, rng.Bool(), rng.Bool())
 	case 10:
